@@ -90,6 +90,28 @@ Theorem C05_grouped_assignment_is_member_assignment : forall E kw r i v,
   step gen_facts E kw r (OSetGrouped i v) = step gen_facts E kw r (OSet i v).
 Proof. intros E. exact (step_grouped gen_facts E eq_refl). Qed.
 
+(* ---- several records of one type: no state is shared between them ---- *)
+(* the constructor is a function of its arguments: the same record whatever was done before (other records built,
+   their lists / digests mutated in place) ... *)
+Theorem C05_constructor_state_free : forall E kw ts w w' args,
+  match construct gen_facts E kw ts args with
+  | Ok r => wstep gen_facts E kw ts w (WNew args) = (w ++ [r], Accepted)
+            /\ wstep gen_facts E kw ts w' (WNew args) = (w' ++ [r], Accepted)
+  | Raise e => wstep gen_facts E kw ts w (WNew args) = (w, Raised e) /\ wstep gen_facts E kw ts w' (WNew args) = (w', Raised e)
+  end.
+Proof. intros E. exact (new_record_state_free gen_facts E). Qed.
+
+(* ... built without values it holds default(T) in every slot (an empty list for T[], an empty digest) ... *)
+Theorem C05_new_record_holds_defaults : forall E kw ts w,
+  wstep gen_facts E kw ts w (WNew []) = (w ++ [blank kw ts], Accepted).
+Proof. intros E. exact (new_without_values_is_default gen_facts E). Qed.
+
+(* ... and an operation on record j -- in-place mutation of the objects it holds included -- leaves every other
+   record exactly as it was *)
+Theorem C05_records_do_not_share_state : forall E kw ts w o k r,
+  nth_error w k = Some r -> targets o k = false -> nth_error (fst (wstep gen_facts E kw ts w o)) k = Some r.
+Proof. intros E. exact (wstep_frame gen_facts E eq_refl). Qed.
+
 (* assigning None is always accepted (and unsets the slot) *)
 Theorem C05_none_is_always_accepted : forall E r i sl, nth_error r i = Some sl ->
   setattr gen_facts E r i PNone = (firstn i r ++ (fst sl, SNone) :: skipn (S i) r, Accepted).
